@@ -130,4 +130,31 @@ def saveInput (sess : Session) (uuid : String) (fs : FS) (path : String) (inp : 
     | none => throw (.refused "unrecognized mode")
     | some _ => throw (.refused "invalid type for data")
 
+/-- the `tree` argument as the caller writes it -/
+inductive TreeArg where
+  | yes       -- True
+  | no        -- False
+  | below     -- None
+  | noroot    -- the deprecated spelling 'noroot' of None
+  | invalid   -- anything else
+  deriving Repr, DecidableEq, Inhabited
+
+/-- `write`: 'noroot' becomes None (with a warning), other values are refused -/
+def TreeArg.resolve : TreeArg → Option TreeOpt
+  | .yes => some .yes
+  | .no => some .no
+  | .below => some .below
+  | .noroot => some .below
+  | .invalid => none
+
+/-- `emdfile.save` with the argument validation at the top of `write`: the mode first, then `tree` -/
+def saveArgs (sess : Session) (uuid : String) (fs : FS) (path : String) (inp : Input) (mode : String)
+    (ta : TreeArg) (emdpath : Option String) : R FS :=
+  match classifyMode (effectiveMode mode emdpath) with
+  | none => throw (.refused "unrecognized mode")
+  | some _ =>
+    match ta.resolve with
+    | none => throw (.refused "invalid value passed for `tree`")
+    | some opt => saveInput sess uuid fs path inp mode opt emdpath
+
 end EmdModel
